@@ -170,8 +170,9 @@ def check(ctx, src):
     pos_l, kw_l = (rt2.value.elts[0].id, rt2.value.elts[2].id) if rt2 is not None and all(isinstance(e, ast.Name) for e in rt2.value.elts) else (None, None)
     apps2 = [n for n in ast.walk(cc) if isinstance(n, ast.Call) and isinstance(n.func, ast.Attribute) and n.func.attr in ("append", "extend", "insert") and isinstance(n.func.value, ast.Name) and n.func.value.id in (pos_l, kw_l)]
     kwc = [n for n in ast.walk(cc) if isinstance(n, ast.Call) and dotted(n.func) == "asty.keyword"]
-    okw = all(any(k is x for a in apps2 if a.func.value.id == kw_l for x in ast.walk(a)) for k in kwc) and bool(kwc)
-    ok_app = all(a.func.attr in ("append", "extend") for a in apps2) and len(apps2) >= 4
+    adds_kw = [a for a in apps2 if a.func.value.id == kw_l] + [n for n in ast.walk(cc) if isinstance(n, ast.AugAssign) and isinstance(n.target, ast.Name) and n.target.id == kw_l]
+    okw = all(any(k is x for a in adds_kw for x in ast.walk(a)) for k in kwc) and bool(kwc)
+    ok_app = all(a.func.attr in ("append", "extend") for a in apps2)
     ctx.decide("CALL-WIRE", f"{compq.CP}|_compile_collect|appends", None if pos_l is None else (okw and ok_app), "keyword arguments must be appended (in encounter order) to the keyword list, positionals to the positional list",
                compq.CP, cc.lineno, detail="append only; asty.keyword -> keywords")
     ctx.check(not any(isinstance(n, ast.Call) and isinstance(n.func, ast.Attribute) and n.func.attr in ("insert", "sort", "reverse") for n in ast.walk(cc)), "CALL-WIRE",
